@@ -1616,6 +1616,9 @@ def _verify_ensemble_config(model_config):
       raise ValueError(
           'CalibratedLatticeEnsemble must have >= 2 lattices. For single '
           'lattice models, use CalibratedLattice instead.')
+    if model_config.lattice_rank is None:
+      raise ValueError('model_config.lattice_rank must be specified when '
+                       'model_config.lattices is set to \'rtl_layer\'.')
     # Check that all lattices sizes for all features are the same.
     if any(feature_config.lattice_size !=
            model_config.feature_configs[0].lattice_size
